@@ -29,18 +29,21 @@ from pycoin.blockchain.BlockChain import BlockChain
 
 MANIFEST = {
     "text": "Lean theorems over an executable model of ChainFinder (load_nodes/meld_new_hashes with the set.pop() order a parameter, "
-            "maximum_path, find_ancestral_path) and BlockChain (add_headers, lock_to_index, lookups), by induction over arbitrary histories: "
-            "replaying all returned ops from the empty list reproduces the reported chain; length/hash_for_index/tuple_for_index/index_for_hash/"
-            "last_block_hash agree with one duplicate-free list; with a sound and complete finder the chain reported after add_headers has maximum "
-            "weight among the chains of the specification; the pre-repair meld_new_hashes is refuted on the three-header witness. "
-            "The BlockChain theorems assume the finder-side invariant (sound trees; the rebuilt finder keeps the reported chain) after every call; "
-            "that invariant is evaluated after every step on model and implementation (op c15inv), not yet proved for every pop order. "
+            "maximum_path, find_ancestral_path) and BlockChain (add_headers, lock_to_index, lookups), by induction over arbitrary histories and, "
+            "inside each call, over the melding loop with an invariant relative to the pending set: for every forest, batching, pop order and "
+            "interleaving of lock_to_index the finder ends sound and complete (C15_chainfinder_inv); replaying all returned ops from the empty list "
+            "reproduces the reported chain; length/hash_for_index/tuple_for_index/index_for_hash/last_block_hash agree with one duplicate-free list; "
+            "the reported unlocked chain is a heaviest chain of registered headers above the current anchor, also after lock_to_index; well-formed "
+            "histories (acyclic parent relation, anchor outside the forest, locks within the chain) never raise and every walk ends within its fuel "
+            "(C15_never_raises). The pre-repair meld_new_hashes is refuted on the three-header witness. "
             "Model tied to the code by differential correspondence on whole histories (all forests on <=3 headers x weights x batchings x pop orders, "
-            "samples of 4..6, random histories with forks, orphans, duplicates, zero weights and locks) and a reference oracle on the implementation.",
+            "samples of 4..6, random histories with forks, orphans, duplicates, zero weights and locks, two objects fed interleaved) and a reference "
+            "oracle on the implementation; the finder invariant is also evaluated on the real objects after every step (op c15inv).",
     "note": "set.pop()/iteration order is pinned by a set subclass bound to the name `set` in the ChainFinder module namespace (no source change). "
-            "Three defects repaired in the worktree (fix: commits): lost orphan subtrees in meld_new_hashes, chain switch at lock_to_index on ties, "
-            "locked duplicate wiping the unlocked chain.",
-    "technique": "Lean 4 proof (induction over histories of an executable model) + differential correspondence model vs implementation + reference oracle",
+            "Three defects repaired (fix: commits): lost orphan subtrees in meld_new_hashes, chain switch at lock_to_index on ties, "
+            "locked duplicate wiping the unlocked chain. Still partial: the statement against Spec.Chain assumes that the dicts record the "
+            "delivered headers (C15_heaviest_over_spec_partial).",
+    "technique": "Lean 4 proof (induction over histories and over the melding loop of an executable model) + differential correspondence model vs implementation + reference oracle",
 }
 RULE = ("one op = one history (forest, delivery order and batching, lock_to_index calls, scripted pop order); distinct = distinct op line; "
         "trivial = fewer than two add_headers steps or a forest that is a single chain delivered in order")
